@@ -31,7 +31,7 @@ def body(c):
         "CalStoreMC over the bounded alphabet with every fresh-handle / "
         "free-slot / open-outcome choice, 6 state invariants + 11 transition "
         "properties, each shown non-vacuous by counters.  Implementation: "
-        "%d bounded-exhaustive cases (5 prefixes x 32-call alphabet ^ %d) plus "
+        "%d bounded-exhaustive cases (6 prefixes x 33-call alphabet ^ %d) plus "
         "%d random histories of up to %d calls over 1-2 vnacal_t and <= 3 "
         "vnacal_new_t each; every public call is one event whose result, "
         "errno, error-callback record and the full getter projection of every "
